@@ -14,7 +14,7 @@ RULE = ("case = (protocol version 2|3; 48-bit device id; for V3 a 64-byte token 
         "applied = full settable state; initial = independent device state incl. display, sensors, filter flag; per-exchange "
         "delivery script: cut set and inter-chunk gap (V3: any cut set incl. byte-by-byte and coalescing; V2: one segment per "
         "packet) and 0..3 unsolicited frames before/after the solicited reply from {duplicate of the reply, spontaneous 0xC0 "
-        "report of the old/current state, 0xA0/0xA1 reports, type-5 0xB5 notification}; optionally the device pushes such frames - one, or a backlog of up to 100 - on the idle connection before the apply, and the client may then stay idle for up to 30 h). (a) client A refreshes, sets every "
+        "report of the old/current state, 0xA0/0xA1 reports, type-5 0xB5 notification}; optionally the device pushes such frames - one, or a backlog of up to 100 - on the idle connection before the apply, and the client may then stay idle for up to 30 h; the unit forgets a V3 session key 12 h + 1 min after the handshake; optionally the unit hangs up after every answer - FIN or RST, seen by the client's event loop after or in the same pass as the answer; optionally the host's local time zone ends or begins daylight saving time during the idle period). (a) client A refreshes, sets every "
         "attribute, apply(): the model device's state decoded with its own vendor-layout decoder must equal applied field by "
         "field, non-settable fields unchanged, no frame rejected, every packet carries the configured device id, and A's "
         "attributes equal applied. (b) a fresh client B (new object, connection, handshake) refresh(): B's attributes equal the "
@@ -25,6 +25,9 @@ ASSUMPTIONS = ["V2 has no stream reassembly by design: V2 replies are delivered 
                "the model device echoes its state after a 0x40 command as real devices do"]
 
 TOKENS = ["DUP", "STATE", "STATE_OLD", "A0", "A1", "B5N"]
+# the host's local time zone and the (UTC) instant the case starts at: the evening before daylight saving time ends / begins
+ZONES = [{}, {}, {"tz": "CET-1CEST,M3.5.0,M10.5.0/3", "start": [2024, 10, 26, 20, 0]}, {"tz": "EST5EDT,M3.2.0,M11.1.0", "start": [2024, 11, 3, 2, 0]},
+         {"tz": "CET-1CEST,M3.5.0,M10.5.0/3", "start": [2024, 3, 30, 20, 0]}]
 
 
 def _check_once(case: dict):
@@ -39,8 +42,12 @@ def _check_once(case: dict):
     res = {}
 
     async def main(loop):
+        if case.get("start"):
+            loop.wall_skew = vloop.seconds_from_epoch(*case["start"])
         m = ModelAC(gens.to_acstate(case["initial"]))
         dev = SimDevice(loop, version=version, device_id=dev_id, ac=m, token=token, key=key)
+        dev.hangup = case.get("hangup")
+        dev.key_lifetime = 12 * 3600.0 + 60.0      # the unit forgets a session key after 12 h (one minute of grace)
         counter = {"n": 0}
 
         def on_data(dev_, conn, frame):
@@ -88,9 +95,10 @@ def _check_once(case: dict):
                 for _ in range(case.get("push_repeat", 1)):
                     conn_a.tr.feed_later(0.01, dev.wrap(conn_a, fr))
             await asyncio.sleep(0.1)
-            if case.get("idle_hours"):
-                # ... and client A stays idle for a long time (past the 12 h session lifetime on V3) with those reports unread
-                await asyncio.sleep(case["idle_hours"] * 3600.0)
+        if case.get("idle_hours"):
+            # ... and client A stays idle for a long time (around or past the 12 h session lifetime on V3), with any such reports unread
+            import asyncio
+            await asyncio.sleep(case["idle_hours"] * 3600.0)
         acutil.set_attrs(a, applied)
         await a.apply()
         res["a_attrs"] = acutil.read_attrs(a)
@@ -122,7 +130,8 @@ def _check_once(case: dict):
         a._lan._disconnect()
         b._lan._disconnect()
 
-    vloop.run(main, net)
+    with vloop.host_timezone(case.get("tz")):
+        vloop.run(main, net)
     if res["rejected"]:
         return ("device-rejects", f"model device rejected a frame: {res['rejected'][0][1]}")
     if res["undecodable"]:
@@ -156,7 +165,7 @@ def _check_once(case: dict):
             return (f"{who[0]}/indoor", f"indoor {got['indoor']!r} for raw {st_after.indoor_raw} tenths {st_after.indoor_tenths}")
         if not acutil.temp_ok(got["outdoor"], st_after.outdoor_raw, st_after.outdoor_tenths, st_after.fahrenheit):
             return (f"{who[0]}/outdoor", f"outdoor {got['outdoor']!r} for raw {st_after.outdoor_raw} tenths {st_after.outdoor_tenths}")
-    if version == 3 and res["conns"] != 2:
+    if version == 3 and res["conns"] != 2 and not case.get("hangup"):
         return ("connections", f"{res['conns']} connections for two clients")
     if "model_again" in res:
         d0 = acutil.diff_model(res["model_other"], acutil.expected_model_fields(res["other"]))
@@ -224,7 +233,9 @@ def cases():
         "token_form": st.sampled_from(["bytes", "hex"]), "key_form": st.sampled_from(["bytes", "hex"]),
         "applied": gens.settable_states(), "initial": gens.device_states(), "script": st.lists(exch, min_size=0, max_size=4)},
         optional={"idle_push": st.lists(st.sampled_from(["STATE", "STATE", "A0", "B5N"]), min_size=1, max_size=3), "again": st.sampled_from([None, "client", "remote"]),
-                  "idle_hours": st.sampled_from([0, 0, 1, 13, 30]), "push_repeat": st.sampled_from([1, 1, 1, 40, 100])})
+                  "idle_hours": st.sampled_from([0, 0, 1, 11.9, 12.5, 13, 30]), "push_repeat": st.sampled_from([1, 1, 1, 40, 100]),
+                  "hangup": st.sampled_from([None, None, "fin", "rst", "fin_same", "rst_same"]),
+                  "zone": st.sampled_from(ZONES)}).map(lambda c: dict({k_: v_ for k_, v_ in c.items() if k_ != "zone"}, **c.get("zone", {})))
 
 
 def run(ctx) -> None:
@@ -250,5 +261,24 @@ def run(ctx) -> None:
                                                "freeze": False, "follow_me": False, "purifier": False, "humidity": 45, "aux": 0, "display_on": True, "indoor_raw": 92,
                                                "outdoor_raw": 104, "indoor_tenths": 3, "outdoor_tenths": 0, "filter_alert": False}
                         ctx.check(case, lambda c: _run_one(ctx, c))
-    ctx.sweep("reports pushed on the idle connection x backlog size x idle period x version", k, True)
+    # deterministic: the unit hangs up after every answer (FIN or RST; seen by the client's loop after or together with the answer); the
+    # client idles around the 12 h key lifetime while the host's local time repeats an hour
+    for version in (2, 3):
+        for hangup in (None, "fin", "rst", "fin_same", "rst_same"):
+            for hours, zone in ((0, {}), (12.5, ZONES[2]), (12.7, ZONES[3]), (11.9, ZONES[4]), (0, ZONES[2])):
+                k += 1
+                if ctx.mine(k):
+                    d = hashlib.sha256(b"c01 det %d" % k).digest()
+                    case = dict({"version": version, "id": int.from_bytes(d[:6], "big"), "token": hashlib.sha512(d).hexdigest(), "key": hashlib.sha256(d + b"k").hexdigest(),
+                                 "token_form": "bytes", "key_form": "bytes",
+                                 "applied": {"power": True, "mode": 1 + k % 5, "target": 17.0 + (k % 20) * 0.5, "fan": [40, 60, 80, 102][k % 4], "swing": [0, 0xC, 0x3, 0xF][k % 4], "eco": bool(k & 1),
+                                             "turbo": False, "sleep": bool(k & 2), "fahrenheit": False, "freeze": False, "follow_me": False, "purifier": bool(k & 4), "humidity": 40 + k % 30,
+                                             "aux": k % 3, "beep": bool(k & 1)},
+                                 "initial": {"power": False, "mode": 2, "target": 24.0, "fan": 80, "swing": 0, "eco": False, "turbo": 0, "sleep": False, "fahrenheit": False,
+                                             "freeze": False, "follow_me": False, "purifier": False, "humidity": 45, "aux": 0, "display_on": True, "indoor_raw": 92,
+                                             "outdoor_raw": 104, "indoor_tenths": 3, "outdoor_tenths": 0, "filter_alert": False}, "script": [], "idle_hours": hours, "again": "remote"}, **zone)
+                    if hangup:
+                        case["hangup"] = hangup
+                    ctx.check(case, lambda c: _run_one(ctx, c))
+    ctx.sweep("reports pushed on the idle connection x backlog size x idle period x version; hang-up personality x idle period x host time zone x version", k, True)
     ctx.hyp("end-to-end", cases(), lambda c: _run_one(ctx, c), ctx.n(4000, 160000))
